@@ -85,7 +85,7 @@ def run(ctx):
     ctx.require(r[0] == "local", "T6-letter-use", rv.name, "return row", "returns the accumulated row", "relator_as_vector returns " + show(r, 1)[:50])
 
     # (1c) elimination routines never work with a stale pivot / element snapshot
-    elim = [ctx.facts.bodies[d] for d in sorted(ctx.facts.bodies) if d.startswith(M) and "{closure" not in d and not d.endswith("abelian_invariants")]
+    elim = [ctx.facts.bodies[d] for d in sorted(ctx.facts.bodies) if d.startswith(M) and "{closure" not in d]
     ctx.scan(elim)
     k = no_stale_elements(ctx, "T3-no-stale-element", elim, g)
     ctx.floor("elimination routines scanned for stale element reads", k, 6)
